@@ -43,6 +43,7 @@ namespace flog = fcppt::log;
 using path = std::vector<int>; // name indices
 
 static std::vector<std::string> NAMES = {"a", "b"};
+static bool PLAIN_STREAMS = false; // level streams without a formatter of their own
 static std::vector<path> NODES; // prefix-closed alphabet of tree nodes (root = {})
 static int NOBJ = 2;
 
@@ -115,7 +116,7 @@ struct log_sys
   {
     ctx = std::make_unique<flog::context>(
         lvl_of(3), fcppt::enum_::array_init<flog::level_stream_array>([this](flog::level const l) {
-          return flog::level_stream(sink, flog::format::optional_function(flog::format::default_level(l)));
+          return flog::level_stream(sink, PLAIN_STREAMS ? flog::format::optional_function{} : flog::format::optional_function(flog::format::default_level(l)));
         }));
     objs.resize(static_cast<std::size_t>(NOBJ));
     objpath.resize(static_cast<std::size_t>(NOBJ));
@@ -296,9 +297,12 @@ struct log_sys
         std::string expect;
         if (en)
         {
+          // documented order: the names on the path from the root, unnamed nodes contribute nothing; then what the level
+          // stream's own formatter adds (level name and newline for default_level, nothing for a plain stream)
           for (int n : p)
-            expect += NAMES[static_cast<std::size_t>(n)] + ": ";
-          expect += lstr(l) + ": m7\n";
+            if (!NAMES[static_cast<std::size_t>(n)].empty())
+              expect += NAMES[static_cast<std::size_t>(n)] + ": ";
+          expect += PLAIN_STREAMS ? std::string("m7") : lstr(l) + ": m7\n";
           if (objfmt[static_cast<std::size_t>(s)])
             expect = "<" + expect + ">";
         }
@@ -358,6 +362,29 @@ int main(int argc, char **argv)
     vrt::hist::limits l;
     l.max_depth = 60;
     vrt::hist::explorer<log_sys> e("log_seq_prefix_names", l);
+    e.run();
+  }, 7200);
+  // unnamed nodes (empty names) inside locations and as object names, with the default level formatters and with level
+  // streams that have no formatter at all (an enabled message is still written, exactly as given)
+  vrt::shard("log_seq_empty_names", [] {
+    NAMES = {"", "a"};
+    NODES.clear();
+    all_paths(2, path{}, NODES);
+    NOBJ = 1;
+    vrt::hist::limits l;
+    l.max_depth = 60;
+    vrt::hist::explorer<log_sys> e("log_seq_empty_names", l);
+    e.run();
+  }, 7200);
+  vrt::shard("log_seq_empty_names_plain_streams", [] {
+    NAMES = {"", "a"};
+    PLAIN_STREAMS = true;
+    NODES.clear();
+    all_paths(2, path{}, NODES);
+    NOBJ = 1;
+    vrt::hist::limits l;
+    l.max_depth = 60;
+    vrt::hist::explorer<log_sys> e("log_seq_empty_names_plain_streams", l);
     e.run();
   }, 7200);
   vrt::shard("log_seq_deep", [th] {
